@@ -504,6 +504,7 @@ def run_case(case):
                         await at_future(start)
                     async for m in rs:
                         obs["delivered"].append(dump(m))
+                        obs.setdefault("delivered_t", []).append(loop.ticks)
                     return "end"
                 except anyio.ClosedResourceError:
                     return "closed"
@@ -552,6 +553,7 @@ def run_case(case):
                         cm = client_cm()
                     async with cm as (rs, ws):
                         obs["enter"] = {"k": "yielded", "t": loop.ticks - ts}
+                        obs["enter_abs"] = loop.ticks
                         S["ws"] = ws
                         S["reader_task"] = asyncio.create_task(reader(rs, loop.ticks + case.get("pause", 0)))
 
